@@ -1510,7 +1510,7 @@ fn capture_image(e: &Eng) {
 
 pub fn run_one(h: &Harness, prefix: &[u8], o: &ExecOpts) -> ExecOut {
   let n = h.progs.len();
-  let cfg = Cfg { fl: h.fl, backend: Backend::Vec, unify: h.unify, reserved: h.reserved, min_seg: h.min_seg, max_align: 16, cap: h.cap, magic: 0, file_offset: 0, retries: 5, via_clone: false };
+  let cfg = Cfg { fl: h.fl, backend: Backend::Vec, unify: h.unify, reserved: h.reserved, min_seg: h.min_seg, max_align: 16, cap: h.cap, magic: 0, file_offset: 0, retries: 5, via_clone: false, lock_meta: false };
   let arena: Arena = Options::new().with_capacity(h.cap).with_unify(h.unify).with_freelist(h.fl.to()).with_minimum_segment_size(h.min_seg).with_maximum_alignment(16).with_reserved(h.reserved).alloc::<Arena>().expect("arena");
   if h.reserved > 0 {
     for (i, b) in unsafe { arena.reserved_slice_mut() }.iter_mut().enumerate() {
